@@ -12,7 +12,7 @@
 (*       "panic" the implementation deviation kills the process            *)
 (*       other   relational: judged against the logged reply (ExecND)      *)
 (***************************************************************************)
-EXTENDS CmdGeneric, CmdString, CmdHash, CmdList, CmdSet, CmdZSet
+EXTENDS CmdGeneric, CmdString, CmdHash, CmdList, CmdSet, CmdZSet, Mem
 
 Modelled == {"SET", "MSET", "GET", "MGET", "DEL", "PERSIST", "EXPIRETIME", "PEXPIRETIME", "TTL", "PTTL",
              "EXPIRE", "PEXPIRE", "EXPIREAT", "PEXPIREAT", "INCR", "DECR", "INCRBY", "DECRBY",
